@@ -294,6 +294,19 @@ impl<K: Hash + Eq, V, FH: BuildHasher, RH: BuildHasher> SegmentedCache<K, V, FH,
         self.protected.remove_lru()
     }
 
+
+    /// Verification hook (feature `verif-hooks`): read-only view of the probationary list.
+    #[cfg(feature = "verif-hooks")]
+    pub fn verif_probationary(&self) -> &RawLRU<K, V, DefaultEvictCallback, RH> {
+        &self.probationary
+    }
+
+    /// Verification hook (feature `verif-hooks`): read-only view of the protected list.
+    #[cfg(feature = "verif-hooks")]
+    pub fn verif_protected(&self) -> &RawLRU<K, V, DefaultEvictCallback, FH> {
+        &self.protected
+    }
+
     /// Returns the number of key-value pairs that are currently in the protected LRU.
     pub fn protected_len(&self) -> usize {
         self.protected.len()
